@@ -986,6 +986,256 @@ example : [Char.ofNat 1, '<', '\r', '\n', 'x'].all srcOk = true := by decide
 example : lineNorm (neutralise [Char.ofNat 1, '<', '\r', '\n', 'x']) = ['\\', 'x', '0', '1', '<', '\n', 'x'] := by decide
 
 
+
+/-! ## H. markup that pydoctor itself builds from strings (model section 7) -/
+
+/-- the text path of `html2stan` on `encode`d text, without the final flatten -/
+theorem html2stan_encode (u : List Char) (h : u.all srcOk = true) :
+    html2stanText (encode u) = some (lineNorm (neutralise u)) := by
+  unfold html2stanText
+  rw [neutralise_encode]
+  exact xmlText_contract _ (fun c hc => mem_neutralise h hc)
+
+/-- **C10 / sig_default_safe.** For *every* string default value the signature that is written is
+either the constant `(...)` or the two constant quote spans around a text that contains no `<`,
+`>` and only emitted entities: the value never contributes markup. -/
+theorem sig_default_safe (s : List Char) :
+    formatSigDefault s = sigBroken ∨
+    ∃ t, formatSigDefault s = sigOpen ++ escapeForContent t ++ sigClose ∧
+      contentSafe (escapeForContent t) = true ∧ unescape (escapeForContent t) = some t := by
+  unfold formatSigDefault
+  cases html2stanText (encode (strEscape s)) with
+  | none => exact Or.inl rfl
+  | some t => exact Or.inr ⟨t, rfl, content_safe t, text_roundtrip t⟩
+
+theorem mem_strEscapeChar {c x : Char} (h : x ∈ strEscapeChar c) :
+    (x = c ∧ c ≠ Char.ofNat 12) ∨ (32 ≤ x.toNat ∧ x.toNat < 127) := by
+  unfold strEscapeChar at h
+  split at h
+  · simp at h; rcases h with e | e <;> subst e <;> exact Or.inr (by decide)
+  · split at h
+    · simp at h; rcases h with e | e <;> subst e <;> exact Or.inr (by decide)
+    · split at h
+      · simp at h; rcases h with e | e <;> subst e <;> exact Or.inr (by decide)
+      · split at h
+        · simp at h; rcases h with e | e <;> subst e <;> exact Or.inr (by decide)
+        · split at h
+          · simp at h; rcases h with e | e <;> subst e <;> exact Or.inr (by decide)
+          · split at h
+            · simp at h; rcases h with e | e <;> subst e <;> exact Or.inr (by decide)
+            · split at h
+              · simp at h; subst h; exact Or.inr (by decide)
+              · split at h
+                · simp at h; rcases h with e | e | e <;> subst e <;> exact Or.inr (by decide)
+                · rename_i _ _ _ _ hff _ _ _
+                  simp at h; subst h; exact Or.inl ⟨rfl, hff⟩
+
+theorem strEscape_srcOk (s : List Char)
+    (h : ∀ c ∈ s, c.toNat ≠ 160 ∧ c.toNat ≠ 0xFFFE ∧ c.toNat ≠ 0xFFFF) : (strEscape s).all srcOk = true := by
+  rw [List.all_eq_true]
+  intro x hx
+  obtain ⟨c, hc, hxc⟩ := List.mem_flatMap.mp hx
+  have hcs := h c hc
+  rcases mem_strEscapeChar hxc with ⟨e, hff⟩ | hr
+  · subst e
+    have hne : x.toNat ≠ 12 := by
+      intro e; apply hff; apply Char.ext; apply UInt32.toNat_inj.mp; simpa using e
+    simp [srcOk, hcs.1, hcs.2.1, hcs.2.2, hne]
+  · simp only [srcOk, Bool.and_eq_true, bne_iff_ne, ne_eq]
+    omega
+
+/-- **C10 / sig_default_text.** Unless the value contains U+00A0, U+FFFE or U+FFFF the signature
+shows exactly the escaped value (`_str_escape`, then `\xNN` for the remaining C0 controls). -/
+theorem sig_default_text (s : List Char)
+    (h : ∀ c ∈ s, c.toNat ≠ 160 ∧ c.toNat ≠ 0xFFFE ∧ c.toNat ≠ 0xFFFF) :
+    formatSigDefault s =
+      sigOpen ++ escapeForContent (lineNorm (neutralise (strEscape s))) ++ sigClose := by
+  unfold formatSigDefault
+  rw [html2stan_encode _ (strEscape_srcOk s h)]
+
+/-- … and with U+00A0 the whole signature is replaced by `(...)` (the known `&nbsp;` defect, C09) -/
+theorem sig_default_nbsp_counterexample : formatSigDefault ['a', nbspChar] = sigBroken := by decide
+
+example : formatSigDefault ['<', '\''] =
+    sigOpen ++ ['&', 'l', 't', ';', '\\', '\''] ++ sigClose := by decide
+
+/-! ### URLs -/
+
+/-- what `quote` can emit -/
+def urlChar (c : Char) : Bool :=
+  quoteSafe c || c = '%' || (65 ≤ c.toNat && c.toNat ≤ 70)
+
+theorem hexUp_urlChar : ∀ n, n < 16 → urlChar (hexUp n) = true := by decide
+
+theorem utf8Bytes_lt (n : Nat) (hn : n < 0x110000) : ∀ b ∈ utf8Bytes n, b < 256 := by
+  intro b hb
+  unfold utf8Bytes at hb
+  split at hb
+  · simp at hb; omega
+  · split at hb
+    · simp at hb; omega
+    · split at hb
+      · simp at hb; omega
+      · simp at hb; omega
+
+theorem char_toNat_lt (c : Char) : c.toNat < 0x110000 := by
+  have hv := c.valid
+  simp only [UInt32.isValidChar, Nat.isValidChar] at hv
+  have : c.val.toNat = c.toNat := rfl
+  omega
+
+theorem quote_clean (s : List Char) : ∀ c ∈ quote s, urlChar c = true := by
+  intro c hc
+  obtain ⟨x, _, hcx⟩ := List.mem_flatMap.mp hc
+  unfold quoteChar at hcx
+  split at hcx
+  · simp only [List.mem_singleton] at hcx; subst hcx
+    rename_i h; simp [urlChar, h]
+  · obtain ⟨b, hb, hcb⟩ := List.mem_flatMap.mp hcx
+    have hlt := utf8Bytes_lt _ (char_toNat_lt x) b hb
+    simp only [List.mem_cons, List.mem_nil_iff, or_false] at hcb
+    rcases hcb with e | e | e
+    · subst e; decide
+    · subst e; exact hexUp_urlChar _ (by omega)
+    · subst e; exact hexUp_urlChar _ (by omega)
+
+theorem urlChar_plain {c : Char} (h : urlChar c = true) :
+    c ≠ '&' ∧ c ≠ '<' ∧ c ≠ '>' ∧ c ≠ '"' ∧ c ≠ '\'' ∧ c ≠ ' ' ∧ c ≠ '#' := by
+  refine ⟨?_, ?_, ?_, ?_, ?_, ?_, ?_⟩ <;> (intro e; subst e; revert h; decide)
+
+theorem escapeAttr_id (s : List Char) (h : ∀ c ∈ s, c ≠ '&' ∧ c ≠ '<' ∧ c ≠ '>' ∧ c ≠ '"') :
+    escapeAttr s = s := by
+  rw [escapeAttr_eq_flatMap]
+  induction s with
+  | nil => rfl
+  | cons x r ih =>
+    have hx := h x (by simp)
+    simp [List.flatMap_cons, escAttrChar, escChar, hx.1, hx.2.1, hx.2.2.1, hx.2.2.2,
+      ih (fun c hc => h c (by simp [hc]))]
+
+theorem docUrl_chars (root : Bool) (p : List Char) (a : Option (List Char)) :
+    ∀ c ∈ docUrl root p a, urlChar c = true ∨ c = '#' := by
+  have hidx : ∀ c ∈ indexHtml, urlChar c = true := by decide
+  have hdot : ∀ c ∈ dotHtml, urlChar c = true := by decide
+  have hpage : ∀ c ∈ (if root then indexHtml else quote p ++ dotHtml), urlChar c = true := by
+    intro c hc
+    cases root
+    · simp only [Bool.false_eq_true, if_false, List.mem_append] at hc
+      rcases hc with hc | hc
+      · exact quote_clean p c hc
+      · exact hdot c hc
+    · exact hidx c (by simpa using hc)
+  intro c hc
+  unfold docUrl at hc
+  cases a with
+  | none => exact Or.inl (hpage c (by simpa using hc))
+  | some n =>
+    simp only [List.mem_append, List.mem_cons] at hc
+    rcases hc with hc | hc | hc
+    · exact Or.inl (hpage c hc)
+    · exact Or.inr hc
+    · exact Or.inl (quote_clean n c hc)
+
+/-- **C10 / url_href_verbatim.** Whatever the (module file, class, member) names are,
+`Documentable.url` consists of unreserved ASCII, `/`, `%XX` and at most one `#`: the flattener writes
+it into `href="…"` unchanged, it needs no escaping and cannot end the attribute; the same for the
+same-page form `taglink` uses. -/
+theorem url_href_verbatim (root : Bool) (p : List Char) (a : Option (List Char)) (cur : List Char) :
+    escapeAttr (docUrl root p a) = docUrl root p a ∧ attrSafe (docUrl root p a) = true ∧
+    escapeAttr (taglinkHref cur (docUrl root p a)) = taglinkHref cur (docUrl root p a) := by
+  have hch := docUrl_chars root p a
+  have hplain : ∀ c ∈ docUrl root p a, c ≠ '&' ∧ c ≠ '<' ∧ c ≠ '>' ∧ c ≠ '"' := by
+    intro c hc
+    rcases hch c hc with h | h
+    · have := urlChar_plain h; exact ⟨this.1, this.2.1, this.2.2.1, this.2.2.2.1⟩
+    · subst h; decide
+  refine ⟨escapeAttr_id _ hplain, ?_, ?_⟩
+  · have := attr_safe (docUrl root p a)
+    rwa [escapeAttr_id _ hplain] at this
+  · apply escapeAttr_id
+    intro c hc
+    unfold taglinkHref at hc
+    split at hc
+    · exact hplain c (List.mem_of_mem_drop hc)
+    · exact hplain c hc
+
+example : docUrl false ['p', '.', '<', 'é'] (some ['"']) =
+    ['p', '.', '%', '3', 'C', '%', 'C', '3', '%', 'A', '9', '.', 'h', 't', 'm', 'l', '#', '%', '2', '2'] := by decide
+
+/-! ### `node2stan.HTMLTranslator.starttag`, `_valid_identifier` -/
+
+def starttagClassToks (tag v : List Char) : List Tok :=
+  let v1 := rstPrefix v
+  let v2 := if isHeadingTag tag then ['h', 'e', 'a', 'd', 'i', 'n', 'g'] else v1
+  let ws := splitWords v2
+  let cls := classWords ws []
+  [.open tag] ++
+    (if cls.isEmpty then [] else [.attr ['c', 'l', 'a', 's', 's'] (attval (joinSp cls))]) ++
+    (match languages ws with | [] => [] | l :: _ => [.attr ['l', 'a', 'n', 'g'] (attval l)]) ++ [.startEnd]
+
+def starttagHrefToks (v : List Char) : List Tok :=
+  [.open ['a'], .attr ['h', 'r', 'e', 'f'] (attval (mungeHref v).1)] ++
+    (if (mungeHref v).2 then [.attr ['t', 'a', 'r', 'g', 'e', 't'] (attval ['_', 't', 'o', 'p'])] else []) ++ [.startEnd]
+
+/-- **C10 / node2stan_starttag_safe.** The start tags pydoctor's translator writes for a class
+value or an href (after its `rst-` munging, docutils' word splitting, `language-` handling) are
+renderings of token streams whose attribute tokens are all clean — whatever the value. -/
+theorem node2stan_starttag_safe (tag v : List Char) :
+    starttagClass tag v = render (starttagClassToks tag v) ∧
+    (starttagClassToks tag v).tail.all tokSafe = true ∧
+    starttagHref v = render (starttagHrefToks v) ∧
+    (starttagHrefToks v).tail.all tokSafe = true := by
+  have k1 : validName ['c', 'l', 'a', 's', 's'] = true := by decide
+  have k2 : validName ['l', 'a', 'n', 'g'] = true := by decide
+  have k3 : validName ['h', 'r', 'e', 'f'] = true := by decide
+  have k4 : validName ['t', 'a', 'r', 'g', 'e', 't'] = true := by decide
+  refine ⟨?_, ?_, ?_, ?_⟩
+  · unfold starttagClass starttagClassToks
+    simp only
+    generalize classWords _ [] = cls
+    generalize languages _ = langs
+    cases hc : cls.isEmpty <;> cases langs <;>
+      simp [hc, render, renderTok, starttagAttr]
+  · unfold starttagClassToks
+    simp only
+    generalize classWords _ [] = cls
+    generalize languages _ = langs
+    cases hc : cls.isEmpty <;> cases langs <;> simp [hc, tokSafe, attval_safe, k1, k2]
+  · unfold starttagHref starttagHrefToks
+    cases h2 : (mungeHref v).2 <;> simp [h2, render, renderTok, starttagAttr]
+  · unfold starttagHrefToks
+    cases h2 : (mungeHref v).2 <;> simp [h2, tokSafe, attval_safe, k3, k4]
+
+theorem rstPrefix_prefixed (v : List Char) : rstDash.isPrefixOf (rstPrefix v) = true := by
+  unfold rstPrefix
+  split
+  · assumption
+  · simp [rstDash, List.isPrefixOf]
+
+/-- a fragment link always points at an `rst-` anchor (ids are prefixed the same way) -/
+theorem mungeHref_fragment (h : List Char) :
+    (['#'] ++ rstDash).isPrefixOf (mungeHref ('#' :: h)).1 = true ∧ (mungeHref ('#' :: h)).2 = false := by
+  unfold mungeHref
+  simp only
+  split
+  · rename_i hp
+    have : h = rstDash ++ h.drop 4 := by
+      have := List.isPrefixOf_iff_prefix.mp hp
+      obtain ⟨t, ht⟩ := this
+      rw [← ht]; simp [rstDash]
+    rw [this]; simp [rstDash, List.isPrefixOf]
+  · simp [rstDash, List.isPrefixOf]
+
+theorem validIdentifierCss_clean (s : List Char) :
+    ∀ c ∈ validIdentifierCss s, (isLetter c || isDigit c || c = '_') = true := by
+  intro c hc
+  exact (List.mem_filter.mp hc).2
+
+example : starttagClass ['d', 'i', 'v'] ['x', '"', '>', ' ', 'l', 'a', 'n', 'g', 'u', 'a', 'g', 'e', '-', 'p', 'y'] =
+    ['<', 'd', 'i', 'v', ' ', 'c', 'l', 'a', 's', 's', '=', '"', 'r', 's', 't', '-', 'x', '&', 'q', 'u', 'o', 't', ';', '&', 'g', 't', ';', '"',
+     ' ', 'l', 'a', 'n', 'g', '=', '"', 'p', 'y', '"', '>'] := by decide
+
+
 /-! ## G. `deprecate`: what is interpolated into the reST template -/
 
 /-- characters with a meaning in reST inline markup or in the line structure of the directive -/
